@@ -677,13 +677,13 @@ func (ctx Ctx) makeExpr(args []ast.Expr) coq.CallExpr {
 // newExpr parses a call to new() into an appropriate allocation
 func (ctx Ctx) newExpr(ty ast.Expr) coq.CallExpr {
 	if sel, ok := ty.(*ast.SelectorExpr); ok {
-		if isIdent(sel.X, "sync") && isIdent(sel.Sel, "Mutex") {
+		if ctx.isBuiltinPkg(sel.X, "sync") && isIdent(sel.Sel, "Mutex") {
 			return coq.NewCallExpr(coq.GallinaIdent("lock.new"))
 		}
-		if isIdent(sel.X, "sync") && isIdent(sel.Sel, "WaitGroup") {
+		if ctx.isBuiltinPkg(sel.X, "sync") && isIdent(sel.Sel, "WaitGroup") {
 			return coq.NewCallExpr(coq.GallinaIdent("waitgroup.New"))
 		}
-		if isIdent(sel.X, "cfmutex") && isIdent(sel.Sel, "CFMutex") {
+		if ctx.isBuiltinPkg(sel.X, "cfmutex") && isIdent(sel.Sel, "CFMutex") {
 			return coq.NewCallExpr(coq.GallinaIdent("lock.new"))
 		}
 	}
